@@ -1,7 +1,7 @@
 (* C10 (c): finite table theorem over the process-global mutable state listed by tools/extractors/t10.py, and the
    frame argument that turns the table into history independence. *)
 From Coq Require Import List String Bool.
-From Gen Require Import Globals.
+From Gen Require Import Globals SortedSites.
 Import ListNotations.
 Open Scope string_scope.
 
@@ -69,6 +69,15 @@ Lemma build_calls_resets : forall r, In r required_reset_calls -> In r build_res
 Proof.
   intros r Hr. apply mem_In.
   exact (proj1 (forallb_forall _ required_reset_calls) reset_calls_check _ Hr).
+Qed.
+
+(* every modelled choke point is still written the way Model.v assumes (syntactic check by t10, regenerated) *)
+Lemma sites_check : forallb (fun r : string * bool => snd r) sorted_sites = true.
+Proof. vm_compute. reflexivity. Qed.
+
+Lemma sites_table : forall site b, In (site, b) sorted_sites -> b = true.
+Proof.
+  intros site b Hin. exact (proj1 (forallb_forall _ sorted_sites) sites_check _ Hin).
 Qed.
 
 (* ---------------------------------------------------------------- frame argument
